@@ -5,7 +5,7 @@ import copy, ipaddress
 from .lib import core, gen, listcorr, meta
 
 EDITS = ['add_rule', 'add_policy_governed', 'add_policy_ungoverned', 'sel_spelling', 'range_split', 'cidr_halves', 'policy_split', 'policy_types', 'sel_spelling', 'sel_spelling',
-         'cidr_except_split', 'policy_types', 'add_rule']
+         'cidr_except_split', 'policy_types', 'add_rule', 'dead_section', 'dead_section', 'range_split']
 
 
 def rand_rule(r, W, d):
@@ -141,13 +141,23 @@ def apply_edit(r, W, kind):
         rule, i = r.choice(locs)
         pp = rule['ports'][i]
         a, b = pp['port'], pp['endPort']
+        hull = False
+        if b < 65535 and r.random() < 0.6:
+            hull = True
+            # an earlier entry of the same protocol above the range (in both spellings): the pieces then fall between ports already allowed
+            above = {'port': min(65535, b + r.choice([1, 2, 10]))}
+            if pp.get('protocol'):
+                above['protocol'] = pp['protocol']
+            rule['ports'].insert(0, above)
+            i += 1
+            W['netpols'] = copy.deepcopy(nps)
         m = r.choice([a, b - 1, (a + b) // 2, r.randint(a, b - 1)])
         p1, p2 = dict(pp), dict(pp)
         p1['endPort'] = m
         p2['port'] = m + 1
         if m == a and r.random() < 0.5:
             p1.pop('endPort')
-        rule['ports'][i:i + 1] = [p1, p2] if r.random() < 0.7 else [p2, p1]
+        rule['ports'][i:i + 1] = [p1, p2] if hull or r.random() < 0.7 else [p2, p1]
         return W2, 'eq', [], [], 'port range %d-%d split at %d' % (a, b, m)
     if kind == 'cidr_halves':
         locs = [(rule, key, i) for p in nps for d, key in (('ingress', 'from'), ('egress', 'to')) for rule in (p.get(d) or [])
@@ -215,13 +225,27 @@ def apply_edit(r, W, kind):
             del p['policyTypes']
             return W2, 'eq', [], [], 'explicit policyTypes of %s removed (equal to the default)' % p['name']
         return None
+    if kind == 'dead_section':
+        # rules written in a direction that the policy's explicit policyTypes leave out are not in effect
+        cands = [p for p in nps if len(meta.effective_types(p)) == 1]
+        if not cands:
+            return None
+        p = r.choice(cands)
+        eff = meta.effective_types(p)
+        d = 'egress' if eff == ['Ingress'] else 'ingress'
+        if not p.get('policyTypes') or p.get(d):
+            p['policyTypes'] = list(eff)
+            p[d] = []
+            W['netpols'][nps.index(p)].update({'policyTypes': list(eff), d: []})
+        p[d] = [rand_rule(r, W, d) for _ in range(r.randint(1, 2))]
+        return W2, 'eq', [], [], 'policy %s with policyTypes %s given %s rules (a section that is not in effect)' % (p['name'], eff, d)
     raise ValueError(kind)
 
 
 def main(tier):
     run = core.Run('C14', tier)
     run.cov['rule'] = ('NetworkPolicy-only random worlds x one typed edit (add a rule in a governed direction; add a policy on already-governed pods; add a policy on ungoverned pods; '
-                       'matchLabels vs single-value In; split a port range; CIDR vs its halves; split a policy; explicit vs defaulted policyTypes); both directories analysed by the real `list`; '
+                       'matchLabels vs single-value In; split a port range; CIDR vs its halves; split a policy; explicit vs defaulted policyTypes; rules in a direction that explicit policyTypes leave out); both directories analysed by the real `list`; '
                        'the two reports related pointwise (all workloads x boundary addresses of both IP partitions) by the verified checker: <=, >=, equal, and equal outside the pods a new policy selects; '
                        'non-trivial = both analyses succeed and the first report has a partial connection; distinct by (edit, scenario hash)')
     run.stage_proofs()
